@@ -373,8 +373,8 @@ fn run(ctx: &mut Ctx) {
         em.emit(ctx, e, &[]);
     }
     enumerate(ctx, &em, &full, 1, 1);
-    // (b) every tree of depth exactly 2 over the full alphabet (1.68·10^6): all of them / every 97th
-    enumerate(ctx, &em, &full, 2, if quick { 97 } else { 1 });
+    // (b) the trees of depth exactly 2 over the full alphabet (1.68·10^6): every 2nd / every 97th
+    enumerate(ctx, &em, &full, 2, if quick { 97 } else { 2 });
     // (c) depth exactly 3 over pruned alphabets, all trees / a subsample
     let fam = |leaves: Vec<Expression>, prefix: Vec<PrefixOperator>, infix: Vec<InfixOperator>| Alphabet {
         leaves,
@@ -396,7 +396,7 @@ fn run(ctx: &mut Ctx) {
     enumerate(ctx, &em, &fam(vec![x()], vec![], ALL_INFIX.to_vec()), 3, if quick { 29 } else { 1 });
 
     // 3. seeded random
-    random_stream(ctx, &em, if quick { 8_000 } else { 300_000 }, 12, 6);
-    random_arith(ctx, &em, if quick { 8_000 } else { 300_000 }, 1212);
-    deep_stream(ctx, &em, if quick { 1_500 } else { 40_000 }, 121212);
+    random_stream(ctx, &em, if quick { 8_000 } else { 200_000 }, 12, 6);
+    random_arith(ctx, &em, if quick { 8_000 } else { 200_000 }, 1212);
+    deep_stream(ctx, &em, if quick { 1_500 } else { 30_000 }, 121212);
 }
